@@ -127,7 +127,12 @@ class lldp (packet_base):
       return
 
     if type in lldp.tlv_parsers:
-      self.tlvs.append(lldp.tlv_parsers[type](array[0: 2 + length]))
+      try:
+        self.tlvs.append(lldp.tlv_parsers[type](array[0: 2 + length]))
+      except Exception:
+        self.msg('(lldp tlv parse) warning malformed TLV of type %u'
+                 % (type,))
+        return
       return 2 + length
     else:
       self.msg('(lldp tlv parse) warning unknown tlv type (%u)'
